@@ -234,6 +234,11 @@ pub enum Extra<'a> {
     },
     /// Say hello
     Hello,
+    /// Two names whose first differing characters share a lead byte (D1 82 / D1 81 after `ст`)
+    #[command(name = "старт")]
+    Start,
+    #[command(name = "стоп")]
+    Stop,
 }
 
 #[derive(Debug, Command)]
@@ -268,7 +273,7 @@ impl CmdSet for GroupSet {
     type C = Grouped<'static>;
     const NAME: &'static str = "group";
     fn names() -> Vec<String> {
-        ["get-led", "exit", "get-adc", "set", "net", "эхо", "go-to", "hello"]
+        ["get-led", "exit", "get-adc", "set", "net", "эхо", "go-to", "hello", "старт", "стоп"]
             .iter()
             .map(|s| s.to_string())
             .collect()
